@@ -50,29 +50,42 @@ def make_schema(case):
     return s
 
 
-def bodies(case, style=None):
-    """OAL text of every action of the case."""
-    out = {}
-    for c in case['callables']:
-        out['%s %s' % (c['kind'], c['name'])] = R.render(c['body'], style)
-    for name, body in (case.get('derived') or {}).items():
-        out['derived A.%s' % name] = R.render(body, style)
+def body_list(case):
+    """[(key, body tree)] of every action of the case, in a fixed order."""
+    out = [('%s %s' % (c['kind'], c['name']), c['body']) for c in case['callables']]
+    out += [('derived A.%s' % name, body) for name, body in sorted((case.get('derived') or {}).items())]
     return out
 
 
-def build(case, style=None):
+def keywords(case, style=None):
+    """The keyword occurrences of all actions, in the order of body_list (C08 re-spells them by this index)."""
+    return [str(p) for _, tree in body_list(case) for p in R.pieces(tree, style) if isinstance(p, R.K)]
+
+
+def bodies(case, style=None, casing=None):
+    """OAL text of every action of the case.  casing: {index of the keyword occurrence over all actions: spelling}."""
+    out, n = {}, 0
+    for key, tree in body_list(case):
+        fn = (lambda i, kw, n=n: casing.get(n + i, kw)) if casing else None
+        out[key] = R.render(tree, style, fn)
+        n += R.count_keywords(tree, style)
+    return out
+
+
+def build(case, style=None, casing=None):
     """BPModel of the case."""
     m = bp.BPModel('C15')
     derived = case.get('derived') or {}
+    texts = bodies(case, style, casing)
     m.klass('A', [('a_id', 'unique_id'), ('i', 'integer'), ('s', 'string'), ('b', 'boolean')] +
-            [(name, 'integer', R.render(derived[name], style)) for name in sorted(derived)])
+            [(name, 'integer', texts['derived A.%s' % name]) for name in sorted(derived)])
     m.klass('B', [('b_id', 'unique_id'), ('n', 'integer'), ('t', 'string')])
     m.simple(1, 'B', 'A', 'a_id', 'a_id', form_many=True)
     bridges = {}
     for c in case['callables']:
         params = tuple((n, t) for n, t in c['params'])
         ret = TYPE_NAME.get(c['ret'], 'void')
-        text = R.render(c['body'], style)
+        text = texts['%s %s' % (c['kind'], c['name'])]
         if c['kind'] == 'function':
             m.function(c['name'], text, params, ret)
         elif c['kind'] == 'bridge':
@@ -114,8 +127,8 @@ def row_order(case, nrows, enum_rows):
     raise ValueError(spec)
 
 
-def load(case, style=None):
-    m, enum_rows = build(case, style)
+def load(case, style=None, casing=None):
+    m, enum_rows = build(case, style, casing)
     text = m.sql(row_order(case, len(m.rows), enum_rows))
     mm, domain = bp.load(text)
     return domain
@@ -129,11 +142,11 @@ def find_callable(case, entry):
     raise KeyError(entry)
 
 
-def run_reference(case):
+def run_reference(case, logic='strict', where_effects=False):
     """(result, snapshot, machine) of the entry invocation; raises OutOfDomain."""
     sch = make_schema(case)
     w = G.populate_ref(sch, case.get('population') or POPULATION)
-    m = R.Machine(w, max_steps=4000, max_depth=12, max_calls=60)
+    m = R.Machine(w, max_steps=4000, max_depth=12, max_calls=60, logic=logic, where_effects=where_effects)
     try:
         return G.with_timeout(lambda: _run_reference(case, sch, w, m), 10.0)
     except G.Timeout:
@@ -172,11 +185,11 @@ def invoke(domain, rows, entry):
     raise KeyError(kind)
 
 
-def run_real(case, style=None):
+def run_real(case, style=None, casing=None):
     """(result, snapshot, error) of the entry invocation on the Domain mk_component builds from the model text."""
     sch = make_schema(case)
     try:
-        domain = load(case, style)
+        domain = load(case, style, casing)
     except Exception as e:
         return None, None, 'loading the model: %s: %s' % (type(e).__name__, e)
     rows = G.populate_real(domain, sch, case.get('population') or POPULATION)
@@ -313,6 +326,18 @@ class CGen(G.Gen):
         return ['icall', self.ch.pick(targets), sig.name, args]
 
     # -- statements --------------------------------------------------------------------------------------------
+    def st_assign_var(self, in_loop, depth):
+        """As in C04, but now and then the local variable is named like a parameter of the same type: param.<name> and the
+        variable <name> are different things (parameters are bound by name, locals live in the body's scope)."""
+        own = [(n, TY[t]) for n, t in (self.me.params if self.me is not None else []) if n != 'd']
+        if own and self.ch.chance(self.p.get('shadow', 0.35)):
+            name, ty = self.ch.pick(own)
+            e = self.expr(ty, self.p['depth'])
+            if e is not None and all(sc.get(name, ty) == ty for sc in self.scopes):
+                self.declare(name, ty)
+                return [['assign', ['var', name], e]]
+        return G.Gen.st_assign_var(self, in_loop, depth)
+
     def st_call(self, in_loop, depth):
         cands = [s for s in self.sigs if (s.pure or not self.pure_only) and (s.kind != 'iop' or self.has_self or self.visible('A'))]
         if not cands or self.calls_left <= 0:
@@ -370,6 +395,9 @@ def gen_body(ch, sch, sigs, me, statements):
     return [['if', ['bin', '>', ['param', 'd'], ['int', 0]], pre + body, [], None]]
 
 
+PARAM_NAMES = ((('n', 'x', 'y'), 'integer'), (('t', 'u'), 'string'), (('c', 'p'), 'boolean'))
+
+
 def gen_case(rng, bare_rate=0.12):
     """One random call graph with an entry invocation."""
     ch = G.RandomChooser(rng)
@@ -380,7 +408,8 @@ def gen_case(rng, bare_rate=0.12):
         counts[kind] = counts.get(kind, 0) + 1
         name = dict(function='F', bridge='G', cop='C', iop='I')[kind] + str(counts[kind])
         owner = dict(function=None, bridge='EX', cop='A', iop='A')[kind]
-        params = [('d', 'integer')] + [p for p in (('n', 'integer'), ('t', 'string'), ('c', 'boolean')) if rng.random() < 0.5]
+        # parameter names: n / t / c or a name the bodies also use for local variables (x y u p)
+        params = [('d', 'integer')] + [(rng.choice(names), ty) for names, ty in PARAM_NAMES if rng.random() < 0.5]
         r = rng.random()
         if r < bare_rate:
             ret, form = None, 'bare'
